@@ -781,11 +781,16 @@ static char *detect_include_guard(Token *tok) {
       continue;
     }
 
-    if (equal(tok->next, "endif") && tok->next->next->kind == TK_EOF)
-      return macro;
+    // The guard's own #endif must be the last thing in the file, and
+    // the guard must not have an #elif or #else group.
+    if (equal(tok->next, "endif"))
+      return tok->next->next->kind == TK_EOF ? macro : NULL;
+    if (equal(tok->next, "elif") || equal(tok->next, "else"))
+      return NULL;
 
-    if (equal(tok, "if") || equal(tok, "ifdef") || equal(tok, "ifndef"))
-      tok = skip_cond_incl(tok->next);
+    // Skip a nested conditional including its #endif.
+    if (equal(tok->next, "if") || equal(tok->next, "ifdef") || equal(tok->next, "ifndef"))
+      tok = skip_cond_incl2(tok->next->next);
     else
       tok = tok->next;
   }
